@@ -287,11 +287,27 @@ def taylor_hooks():
         return sym(str(a[0]))
 
     def diff(sx, a, kw):
-        s = split(a[0])
-        if s is None or s[1] is None:
+        # sympy.diff(f, x), diff(f, x, n), diff(f, x, x, ...), diff(f, (x, n)): the number of derivatives is counted
+        if kw or len(a) < 2:
             return NotImplemented
-        c, base, p = s
-        return t_mul(c * p, t_pow(base, p - 1))
+        n = 0
+        for extra in a[1:]:
+            if isinstance(extra, int) and not isinstance(extra, bool) and extra >= 0 and n > 0:
+                n += extra - 1
+            elif isinstance(extra, (tuple, list)) and len(extra) == 2 and isinstance(extra[1], int) and extra[1] >= 0:
+                n += extra[1]
+            elif isinstance(extra, T) and extra.op == "sym":
+                n += 1
+            else:
+                return NotImplemented
+        f = a[0]
+        for _ in range(n):
+            s = split(f)
+            if s is None or s[1] is None:
+                return NotImplemented
+            c, base, p = s
+            f = t_mul(c * p, t_pow(base, p - 1))
+        return f
 
     def subs(sx, a, kw):
         recv, var, val = a[0], a[1], a[2]
